@@ -511,9 +511,10 @@ class DefUse:
                     if al is not None:
                         base, recv = al
                         bprev = env.get(base, EMPTY)
-                        d2 = self._mk(base, "mut", stmt, node,
-                                      {"method": meth, "prev": bprev,
-                                       "receiver": recv},
+                        ex2 = {"method": meth, "prev": bprev}
+                        if recv is not None:
+                            ex2["receiver"] = recv
+                        d2 = self._mk(base, "mut", stmt, node, ex2,
                                       slot=("mutalias", id(node)))
                         env[base] = frozenset({d2})
                         self._register(stmt, d2)
@@ -557,6 +558,27 @@ class DefUse:
                 if not isinstance(root, ast.Name) or root.id not in env:
                     return None
                 found.append((root.id, d.value))
+            elif d.kind == "for" and d.value is not None:
+                # loop variable: the current element of a local container
+                #   for a in xs / for i, a in enumerate(xs) /
+                #   for a, b in zip(xs, ys)
+                it = d.value
+                path = tuple(ex.get("path") or ())
+                cont = None
+                if isinstance(it, ast.Name) and not path:
+                    cont = it
+                elif isinstance(it, ast.Call) and isinstance(
+                        it.func, ast.Name) and not it.keywords:
+                    if it.func.id == "enumerate" and path == (1,) and \
+                            it.args:
+                        cont = it.args[0]
+                    elif it.func.id == "zip" and len(path) == 1 and \
+                            isinstance(path[0], int) and \
+                            path[0] < len(it.args):
+                        cont = it.args[path[0]]
+                if not isinstance(cont, ast.Name) or cont.id not in env:
+                    return None
+                found.append((cont.id, None))
             else:
                 return None
         if found and len({b for b, _r in found}) == 1:
